@@ -178,12 +178,29 @@ def brWalk : Nat → Option (H2 × Nat) → Bytes → List Tok
     if bs.isEmpty then []
     else match st with
       | none =>
-        if bs.length < 61 then [.cut]
-        else match readH2 bs with
-          | none => [.cut]
-          | some (h, rest) =>
-            Tok.h2 h.base h.lod h.count.toNat (h.attrs % 8 != 0) h.plen ::
-              brWalk fuel (if h.count.toNat = 0 then none else some (h, h.count.toNat)) rest
+        match Spec.RB.magicOf bs with
+        | none => [.cut]
+        | some mg =>
+          if mg = 2 then
+            if bs.length < 61 then [.cut]
+            else match readH2 bs with
+              | none => [.cut]
+              | some (h, rest) =>
+                Tok.h2 h.base h.lod h.count.toNat (h.attrs % 8 != 0) h.plen ::
+                  brWalk fuel (if h.count.toNat = 0 then none else some (h, h.count.toNat)) rest
+          else
+            -- a v0/v1 message: the fixed header, then readMessageV1's `readBytesWith(key)`, `readBytesWith(val)`
+            if bs.length < (if mg = 1 then 26 else 18) then [.cut]
+            else match readH1 bs with
+              | none => [.cut]
+              | some (h, rest) =>
+                let ts : Int := if mg = 1 then (match RW.readI64 (bs.drop 18) with | some (t, _) => t | none => 0) else -1
+                Tok.h1 h.magic.toNat h.off (h.attrs % 8 != 0) ::
+                  if rest.isEmpty then [] else      -- nothing left: the stream ends, no `cut` token
+                  match BR.readBodyV1 ⟨rest, rest.length⟩ with
+                  | .error _ => [.cut]
+                  | .ok ((k, v), r') =>
+                    Tok.kv (digestOf (some k) (some v) ts []) (rest.length - r'.bs.length) :: brWalk fuel none r'.bs
       | some (h, k) =>
         match BR.readRecordV2 ⟨bs, bs.length⟩ with
         | .error _ => [.cut]
@@ -537,7 +554,7 @@ def step (line : String) : String :=
         | some bytes, some items =>
           let expected := truncate (allTokens items) bytes.length
           let actual := tokenize tokCfg (bytes.length + 1) .hdr bytes
-          let plainV2 := items.all fun it => match it with | .b2 _ _ false _ _ => true | _ => false
+          let plainV2 := items.all fun it => match it with | .b2 _ _ false _ _ => true | .m .. => true | _ => false
           let go := brWalk (bytes.length + 1) none bytes
           if plainV2 && go != expected then
             answer s!"go-bytes-diff:{repr (go.zip expected |>.find? (fun p => p.1 != p.2))}" false
